@@ -179,6 +179,9 @@ func (m *tableModel) shape(w core.FieldWrite, typ, field string) writeShape {
 	if _, ok := boundedPush(w.Val); ok {
 		return shapeBoundedPush
 	}
+	if ip := inlinePush(w.Val); ip != nil && core.IsLoadOfField(ip.list, typ, field) {
+		return shapeBoundedPush
+	}
 	if core.IsNilConst(w.Val) {
 		return shapeEmpty
 	}
@@ -283,4 +286,87 @@ func factLenLess(typ, field string, n int64) func(fs []core.Fact) bool {
 
 func (m *tableModel) key(w core.FieldWrite, what string) string {
 	return fmt.Sprintf("%s %s", core.FuncName(w.Fn), what)
+}
+
+// pushSite is the bounded push-front written out where the list is stored back:
+//
+//	list := b.replacements
+//	if len(list) < K { list = append(list, nil) }
+//	removed := list[len(list)-1]; copy(list[1:], list); list[0] = n
+//
+// v (the value stored back) is the phi of list and append(list, nil).
+type pushSite struct {
+	list     ssa.Value // the list before the push
+	max      ssa.Value // K
+	removed  ssa.Value // the element read from the last slot (what falls out)
+	newcomer ssa.Value // what is stored at index 0
+}
+
+func inlinePush(v ssa.Value) *pushSite {
+	ph, ok := v.(*ssa.Phi)
+	if !ok || len(ph.Edges) != 2 {
+		return nil
+	}
+	var list ssa.Value
+	var app *ssa.Call
+	for i, e := range ph.Edges {
+		if ac, isC := e.(*ssa.Call); isC && core.CalleeID(ac) == "builtin.append" && ac.Call.Args[0] == ph.Edges[1-i] {
+			app, list = ac, ph.Edges[1-i]
+		}
+	}
+	if app == nil {
+		return nil
+	}
+	// the appended element is one nil slot
+	el := core.VariadicElems(app.Call.Args[1])
+	if len(el) != 1 || !core.IsNilConst(el[0]) {
+		return nil
+	}
+	ps := &pushSite{list: list}
+	room := core.AnyFact(func(fc core.Fact) bool {
+		return core.CmpFact(fc, func(op token.Token, x, y ssa.Value) bool {
+			if op == token.LSS && core.IsLenOf(x, func(v ssa.Value) bool { return v == list }) {
+				ps.max = y
+				return true
+			}
+			return false
+		})
+	})
+	if w := core.InstrGuarded(app, room, nil); w != nil || ps.max == nil {
+		return nil
+	}
+	// shift right by one, newcomer at index 0, last slot read before
+	shifted := false
+	for _, b := range ph.Parent().Blocks {
+		for _, in := range b.Instrs {
+			switch x := in.(type) {
+			case *ssa.Call:
+				if core.CalleeID(x) == "builtin.copy" {
+					if sl, isSl := x.Call.Args[0].(*ssa.Slice); isSl && sl.X == ssa.Value(ph) && x.Call.Args[1] == ssa.Value(ph) {
+						if k, isK := core.ConstInt(sl.Low); isK && k == 1 && sl.High == nil {
+							shifted = true
+						}
+					}
+				}
+			case *ssa.Store:
+				if ia, isIa := x.Addr.(*ssa.IndexAddr); isIa && ia.X == ssa.Value(ph) {
+					if k, isK := core.ConstInt(ia.Index); isK && k == 0 {
+						ps.newcomer = x.Val
+					}
+				}
+			case *ssa.UnOp:
+				if ia, isIa := x.X.(*ssa.IndexAddr); isIa && x.Op == token.MUL && ia.X == ssa.Value(ph) {
+					if bo, isBo := ia.Index.(*ssa.BinOp); isBo && bo.Op == token.SUB && core.IsLenOf(bo.X, func(v ssa.Value) bool { return v == ssa.Value(ph) }) {
+						if k, isK := core.ConstInt(bo.Y); isK && k == 1 {
+							ps.removed = x
+						}
+					}
+				}
+			}
+		}
+	}
+	if !shifted || ps.newcomer == nil {
+		return nil
+	}
+	return ps
 }
